@@ -17,6 +17,13 @@ CHECKS = {
              "function by an exhaustive comparison over all okta sequences 0..8 up to length 5 (quick) / 7 "
              "(thorough) plus random long ones, and the Lean spec predicate is evaluated on the real output.",
         ref='§6 C17', technique='Lean 4 proof (induction over the okta list) + exhaustive model/implementation correspondence'),
+    'C18': dict(
+        text="Lean theorems over exact rationals for the models of wmo.perc2okta (range refusal, 0 iff n=0, 8 iff n=M, "
+             "nearest-clipped, monotone in n), okta2code (full table, refusals by type) and height2code (floor, monotone, "
+             "three digits on [0,1e5)). Binary64 rounding is not proved: the real functions are compared with the model "
+             "on every (n,M<=512/4096), array and scalar paths, a 1-ft/0.01-ft height grid and all coding boundaries with "
+             "their float neighbours.",
+        ref='§6 C18', technique='Lean 4 proof over Rat + exhaustive float-vs-model validation at all boundaries'),
 }
 
 
